@@ -468,6 +468,10 @@ class Run:
                     "Lean interpreter running the model in Driver.lean",
                     "harness/common.py + this property's harness: same inputs to both sides, faithful canonicalisation",
                     *self.trusted_extra,
+                    *(["harness/py2lean.py: the translator that regenerates lean/RV/Generated/*.lean from /repo on every run (typed Python subset; library "
+                       "calls mapped to the primitives of RV/Num/Py.lean and RV/Num/F64.lean; geometry helpers and object attributes enter as parameters); "
+                       "bridge theorems in " + ", ".join(m for m in self.modules if m.startswith("RV.Bridge.")) + " tie the translated definitions to the model"]
+                      if any(m.startswith("RV.Bridge.") for m in self.modules) else []),
                 ],
                 "evaluations": self.evaluations,
                 "distinct_nontrivial": len(self.nontrivial),
